@@ -52,9 +52,17 @@ func verif_C16_body() {
 	cbCalls := 0
 	var w io.WriteCloser
 	var err error
+	// LMTP: with a status callback, with an explicitly nil callback, or through Data()
+	lmtpMode := 0
 	if lmtp {
+		lmtpMode = verifChoice(3)
+	}
+	switch {
+	case lmtp && lmtpMode == 0:
 		w, err = c.LMTPData(func(rcpt string, st *SMTPError) { cbCalls++; cbStatus = st })
-	} else {
+	case lmtp && lmtpMode == 1:
+		w, err = c.LMTPData(nil)
+	default:
 		w, err = c.Data()
 	}
 	verifAssert(err == nil, "C16.data-started")
@@ -70,7 +78,7 @@ func verif_C16_body() {
 	verifObserve("c16", body, cut1, cut2, lmtp, accept, cerr == nil, cerr2 == nil, len(vc.out) == n1)
 	// verdict
 	var verdict error = cerr
-	if lmtp {
+	if lmtp && lmtpMode == 0 {
 		verifAssert(cbCalls == 1 && cerr == nil, "C16.lmtp-callback-once")
 		if cbStatus != nil {
 			verdict = cbStatus
